@@ -57,6 +57,11 @@ def _run(sim, case, r):
     version = [T.enc_tlv(54, T.enc_nni(case['version']))] if case['version'] is not None else []
     base = PREFIX + version
     last = N - 1
+    ask = list(PREFIX)
+    if case.get('ask_segment') is not None and N > 0:
+        # the application passes the full name of one segment (e.g. from a link it was given): discovery is answered by it
+        ask = base + [seg(case['ask_segment'] % N)]
+        case = dict(case, disc_k=case['ask_segment'] % N)
     loss = case['loss']                 # dict row -> list of bool per attempt (True = lost); rows: 'd', '0', '1', ...
     attempts = {}
     beyond = []
@@ -70,6 +75,11 @@ def _run(sim, case, r):
 
     def data_for(i):
         fb = seg(last) if (i == last or case['final_on_all']) else None
+        if fb is None and case.get('other_final'):
+            # a FinalBlockId that is NOT this segment's own name component (another component type carrying this segment's
+            # number, or a version): it does not designate this segment as the final one
+            kind = case['other_final']
+            fb = T.enc_tlv({'seq': 58, 'off': 52, 'ver': 54, 'gen': 8}[kind], T.enc_nni(i))
         return net.data_wire(base + [seg(i)], content=content_of(i), final_block=fb, freshness=1000)
 
     def send(data):
@@ -79,7 +89,7 @@ def _run(sim, case, r):
             return
         si = P.strict_interest(w)
         name = si['name']
-        if name == PREFIX and si['can_be_prefix']:
+        if name == ask and si['can_be_prefix']:
             row = 'd'
         elif name[:-1] == base and name[-1][:1] == b'\x32':
             el = T.read_tlv(name[-1], 0, len(name[-1]))
@@ -121,7 +131,7 @@ def _run(sim, case, r):
 
     async def consume():
         try:
-            async for c in segment_fetcher(sim.app, list(PREFIX), timeout=TIMEOUT_MS, retry_times=rt, validator=validator):
+            async for c in segment_fetcher(sim.app, list(ask), timeout=TIMEOUT_MS, retry_times=rt, validator=validator):
                 out.append(None if c is None else bytes(c))
             box['end'] = 'done'
         except Exception as e:
@@ -242,6 +252,8 @@ def _case(draw):
     elif draw(st.integers(0, 14)) == 0:
         fault = ['nack', 'd']
     return {'n': n, 'retry': rt, 'disc_k': draw(st.integers(0, 7)), 'final_on_all': draw(st.booleans()),
+            'other_final': draw(st.sampled_from([None, None, None, 'seq', 'off', 'ver', 'gen'])),
+            'ask_segment': draw(st.one_of(st.none(), st.none(), st.none(), st.integers(0, 7))),
             'version': draw(st.one_of(st.none(), st.sampled_from([0, 1, 255, 256, 2 ** 32]))), 'loss': loss, 'fault': fault}
 
 
